@@ -379,6 +379,39 @@ def read_tree(d):
     return r
 
 
+def do_relto(d):
+    """For every target: the data-flow paths from each node its sources come from, and what
+    Rewriter.get_relto answers (directories relative to the source root)."""
+    from mesonbuild.rewriter import Rewriter
+    from mesonbuild.mparser import FunctionNode
+    from mesonbuild.interpreterbase import UnknownValue
+    out = []
+    try:
+        with quiet(), contextlib.redirect_stderr(io.StringIO()):
+            rw = Rewriter(d)
+            rw.analyze_meson()
+            root = os.path.abspath(os.path.join(os.getcwd(), rw.interpreter.source_root))
+            for tgt in rw.interpreter.targets:
+                nodes = rw.interpreter.dataflow_dag.reachable(set(tgt.source_nodes), True) | {tgt.node}
+                for nd in nodes:
+                    if isinstance(nd, UnknownValue):
+                        continue
+                    paths = rw.interpreter.dataflow_dag.find_all_paths(nd, tgt.node)
+                    if not paths:
+                        continue
+                    enc = []
+                    for p in paths:
+                        enc.append('\x02'.join(('F' + os.path.relpath(os.path.dirname(os.path.abspath(x.filename)), root)) if isinstance(x, FunctionNode) else 'N'
+                                                for x in p))
+                    r = rw.get_relto(tgt.node, nd)
+                    out.append([enc, 'TN' if r is None else 'TS' + os.path.relpath(str(r), root)])
+    except BaseException as e:
+        return [['EXC', type(e).__name__]]
+    finally:
+        mlog.set_verbose()
+    return out
+
+
 def do_project(case, scratch):
     """case: {'files': {relpath: text}, 'steps': [[argv...], ...]}.  Runs every step and
     returns after each step: rc, the build files, stdout (info JSON)."""
@@ -389,6 +422,7 @@ def do_project(case, scratch):
         os.makedirs(os.path.dirname(p), exist_ok=True)
         with open(p, 'w', encoding='utf-8', newline='') as f:
             f.write(text)
+    relto = do_relto(d) if case.get('relto') else None
     steps = []
     for argv in case['steps']:
         rc, out, err = run_rewrite(d, list(argv))
@@ -399,6 +433,8 @@ def do_project(case, scratch):
             except Exception:
                 info = {'unparsable': out[:200]}
         steps.append({'rc': rc, 'files': read_tree(d), 'info': info, 'err': err if rc else ''})
+    if relto is not None and steps:
+        steps[0]['relto'] = relto
     return steps
 
 
